@@ -33,7 +33,7 @@ const (
 	baseC = 2000000
 )
 
-func stressCount(c *Cfg) uint64 { return uint64(c.A) + uint64(c.B-baseB) + uint64(c.C-baseC) }
+func stressCount(c *Cfg) uint64 { return uint64(c.A) + uint64(c.b()-baseB) + uint64(c.c()-baseC) }
 
 type stressSource struct {
 	wa  dials.WatchArgs
@@ -105,7 +105,7 @@ func runStress(in input, emit func(string)) (res childResult) {
 	}
 	emit("H " + setup.coq())
 	res.Setup = setup
-	d, err := p.Config(ctx, &Cfg{A: 0, B: baseB, C: baseC}, dsrcs...)
+	d, err := p.Config(ctx, newCfg(0, baseB, baseC), dsrcs...)
 	if err != nil {
 		cancel()
 		panic(harnessError("stress: Config failed: " + err.Error()))
@@ -177,8 +177,8 @@ func runStress(in input, emit func(string)) (res childResult) {
 			viol.add("%s: nil config", who)
 			return
 		}
-		if c.A > c.B {
-			viol.add("%s: observed a config that does not verify (A=%d > B=%d)", who, c.A, c.B)
+		if c.A > c.b() {
+			viol.add("%s: observed a config that does not verify (A=%d > B=%d)", who, c.A, c.b())
 		}
 	}
 	// readers
